@@ -380,6 +380,17 @@ def _text(rng):
         j = rng.choice([" - ", "-", " to ", " bis ", " until ", " und "])
         pre = rng.choice(["", "", "from ", "von ", "between ", "tomorrow ", "12.12.2020 "])
         return pre + ck() + j + ck()
+    if r < 0.625:
+        # a full date followed by a range of parts of day, in both orders
+        d = rng.choice(["tomorrow", "5.5.2020", "heute", "friday", "31.12.", "12.12.2020"])
+        a, b = rng.choice(workload.PODS), rng.choice(workload.PODS)
+        return "%s %s %s %s" % (d, a, rng.choice(["-", "until", "bis", "to"]), b)
+    if r < 0.63:
+        # a long chain of date-times (deep rule traces under the shipped model)
+        k = rng.randint(4, 7)
+        parts = ["%s %d.3.2020 %d:00" % (rng.choice(["mon", "tue", "wed", "thu", "fri", "sat"]),
+                                         2 + i, 8 + i) for i in range(k)]
+        return " - ".join(parts)
     if r < 0.64:
         # a duration next to a date interval (the "3 days 15-18 Nov" consistency rules), with
         # ordinary and absurd amounts
@@ -440,15 +451,18 @@ def plan(prop, tier, seed):
         env = _env(rng)
         items = []
         for _ in range(rng.randint(6, 14)):
-            t = _text(rng)[:80]
-            if len(t.split()) > 8:
-                t = " ".join(t.split()[:8])
+            t = _text(rng)
+            chain = t.count(" - ") >= 3 and ".3.2020" in t
+            if not chain:
+                t = t[:80]
+                if len(t.split()) > 8:
+                    t = " ".join(t.split()[:8])
             it = {"text": t,
                   "latent_time": rng.random() < 0.6,
                   # the un-truncated search (depth 0) only for short texts: beyond ~4 tokens
                   # it is legitimately huge and nothing but a real timeout would bound it
                   "max_stack_depth": rng.choice([0, 1, 10, 10]) if len(t.split()) <= 4
-                  else rng.choice([1, 10, 10]),
+                  else (10 if chain else rng.choice([1, 10, 10])),
                   "relative_match_len": rng.choice([1.0, 1.0, 0.9, 0.5, 0.1, 0.01, 1e-9, 0.999999, 0.3333333]),
                   "debug": rng.random() < 0.15}
             if rng.random() < 0.7:
